@@ -4,7 +4,7 @@
 From Coq Require Import List Arith ZArith Bool Lia.
 From Qeep Require Import Model.Scalar Model.Nd Model.Fill Model.Data Model.Valid Model.Api Model.Grad
      Model.Backprop Model.Components Model.Scenario Model.Alias.
-From Qeep Require Import Proofs.NdP Proofs.TrackP Proofs.StepP.
+From Qeep Require Import Proofs.NdP Proofs.TrackP Proofs.StepP Proofs.HistoryP.
 Import ListNotations.
 
 Lemma nth_of_nth_error {X} (l : list X) k d : nth k l d = match nth_error l k with Some x => x | None => d end.
@@ -106,6 +106,109 @@ Proof.
   destruct (k =? sid) eqn:E; [|reflexivity]. apply Nat.eqb_eq in E. subst k. congruence.
 Qed.
 
+(* ---------- sanity of the Retained model: without caller-side mutation the two modes agree ---------- *)
+Notation heap := (@heap A).
+
+(* every recorded capture still carries the content of its slice *)
+Definition fixed (sl : store) (recs : list (nat * nat)) (h : heap) : Prop :=
+  forall id sid, In (id, sid) recs -> exists n, nth_error h id = Some n /\
+    map (fun e : nat * @rule A => (fst e, refresh_rule (nth sid sl []) (snd e))) (nedges n) = nedges n.
+
+Lemma updNode_id (h : heap) i f : (forall n, nth_error h i = Some n -> f n = n) -> updNode h i f = h.
+Proof.
+  intros Hf. apply nth_error_ext_len; [apply updNode_length|]. intros j _. rewrite updNode_nth.
+  destruct (nth_error h j) as [n|] eqn:E; [|reflexivity]. cbn. destruct (j =? i) eqn:Ej; [|reflexivity].
+  apply Nat.eqb_eq in Ej. subst j. rewrite (Hf n E). reflexivity.
+Qed.
+
+Lemma refresh_fixed (sl : store) recs (h : heap) : fixed sl recs h -> refresh sl recs h = h.
+Proof.
+  unfold refresh. induction recs as [|[id sid] recs IH]; intros Hf; [reflexivity|]. cbn [fold_left].
+  assert (E : refresh1 sl h (id, sid) = h).
+  { unfold refresh1. cbn [fst snd]. apply updNode_id. intros n Hn.
+    destruct (Hf id sid (or_introl eq_refl)) as (n' & Hn' & He). assert (n' = n) by congruence. subst n'.
+    destruct n; cbn in *. rewrite He. reflexivity. }
+  rewrite E. apply IH. intros id' sid' Hin. apply Hf. right. exact Hin.
+Qed.
+
+Lemma fixed_step (sl : store) recs (s : state) (c : cmd) :
+  fixed sl recs (st_heap s) -> fixed sl recs (st_heap (fst (step s c))).
+Proof.
+  intros Hf id sid Hin. destruct (Hf id sid Hin) as (n & Hn & He).
+  destruct (step_frame_values rd sealv sealg c_eps c_one_m_eps c_leaky c_sgd_lr dFull dUniL dUniU dNorM dNorS c_softmax_dim s c id n Hn)
+    as (n' & Hn' & _).
+  exists n'. split; [exact Hn'|].
+  destruct (step_rel rd sealv sealg c_eps c_one_m_eps c_leaky c_sgd_lr dFull dUniL dUniU dNorM dNorS c_softmax_dim s c)
+    as [[Hx _|t b x _ _ E|t x log _ _ Eb] _].
+  - rewrite (extends_nth _ _ Hx _ _ Hn) in Hn'. inversion Hn'; subst. exact He.
+  - rewrite E in Hn'. destruct (h_reset_spec (st_heap s) x b) as (_ & Hs & Ho & _).
+    destruct (Nat.eq_dec id x) as [->|Hne].
+    + rewrite (Hs n Hn) in Hn'. inversion Hn'; subst. reflexivity.
+    + rewrite Ho, Hn in Hn' by exact Hne. inversion Hn'; subst. exact He.
+  - destruct (bp_nodes rd _ _ _ _ _ _ Eb) as [_ Hb]. destruct (Hb id n Hn) as (n'' & Hn'' & _ & _ & V & _).
+    assert (n'' = n') by congruence. subst n''. rewrite V. exact He.
+Qed.
+
+Lemma slice_created (s : state) t idx id : created s (fst (step s (CSlice t idx))) = Some id ->
+  exists n, nth_error (st_heap (fst (step s (CSlice t idx)))) id = Some n /\
+    (nedges n = [] \/ exists x, nedges n = [(x, RSliceX id x idx)]).
+Proof.
+  unfold Scenario.step. destruct (lookupT s t) as [x|]; [|intros X; rewrite bad_created in X; discriminate].
+  intros Hc. destruct (fin_created sealv _ _ _ Hc) as (h' & Er & Eh). rewrite Eh.
+  apply h_slice_track in Er. destruct Er as (n & Hn & Hr & _ & _ & Hed & _).
+  destruct (sealNode_node sealv h' id (length (st_env s)) n Hn) as (n' & Hn' & _ & _ & _ & G4 & _).
+  exists n'. split; [exact Hn'|]. rewrite G4. destruct (ntracked n) eqn:Et.
+  - right. exists x. apply Hed. reflexivity.
+  - left. destruct Hr as (_ & _ & Hne & _). apply Hne. exact Et.
+Qed.
+
+Lemma patch_created (s : state) t idx u id : created s (fst (step s (CPatch t idx u))) = Some id ->
+  exists n, nth_error (st_heap (fst (step s (CPatch t idx u)))) id = Some n /\
+    (nedges n = [] \/ exists x p, nedges n = [(x, RPatchX id p idx); (p, RPatchP id p idx)]).
+Proof.
+  unfold Scenario.step. destruct (lookupT s t) as [x|]; [|intros X; rewrite bad_created in X; discriminate].
+  destruct (lookupArg s u) as [[p|]|]; [|intros X; rewrite plain_created in X; discriminate|intros X; rewrite bad_created in X; discriminate].
+  intros Hc. destruct (fin_created sealv _ _ _ Hc) as (h' & Er & Eh). rewrite Eh.
+  apply h_patch_track in Er. destruct Er as (n & Hn & Hr & _ & _ & Hed & _).
+  destruct (sealNode_node sealv h' id (length (st_env s)) n Hn) as (n' & Hn' & _ & _ & _ & G4 & _).
+  exists n'. split; [exact Hn'|]. rewrite G4. destruct (ntracked n) eqn:Et.
+  - right. exists x, p. apply Hed. reflexivity.
+  - left. destruct Hr as (_ & _ & Hne & _). apply Hne. exact Et.
+Qed.
+
+Fixpoint no_mutation (p : list acmd) : bool :=
+  match p with [] => true | AMutate _ _ :: _ => false | _ :: q => no_mutation q end.
+
+Lemma retained_agrees_aux (p : list acmd) : forall (s : state) (sl : store) recs, no_mutation p = true ->
+  fixed sl recs (st_heap s) -> arun Retained (s, sl, recs) p = arun Copied (s, sl, []) p.
+Proof.
+  induction p as [|c p IH]; intros s sl recs Hm Hf; [reflexivity|].
+  destruct c as [t sid|t sid u|sid new|c]; cbn [no_mutation] in Hm; try discriminate;
+    cbn [Alias.arun Alias.astep Alias.record].
+  - pose proof (fixed_step sl recs s (CSlice t (nth sid sl [])) Hf) as Hf'.
+    pose proof (slice_created s t (nth sid sl [])) as Hcr.
+    destruct (step s (CSlice t (nth sid sl []))) as [s' o]. cbn [fst] in *. f_equal.
+    change (newTensor s s') with (created s s'). destruct (created s s') as [id|] eqn:Ec; [|apply IH; assumption].
+    apply IH; [exact Hm|]. intros id' sid' [X|Hin]; [|apply Hf'; exact Hin]. inversion X; subst id' sid'.
+    destruct (Hcr id eq_refl) as (n & Hn & [He|(x & He)]); exists n; (split; [exact Hn|]); rewrite He; reflexivity.
+  - pose proof (fixed_step sl recs s (CPatch t (nth sid sl []) u) Hf) as Hf'.
+    pose proof (patch_created s t (nth sid sl []) u) as Hcr.
+    destruct (step s (CPatch t (nth sid sl []) u)) as [s' o]. cbn [fst] in *. f_equal.
+    change (newTensor s s') with (created s s'). destruct (created s s') as [id|] eqn:Ec; [|apply IH; assumption].
+    apply IH; [exact Hm|]. intros id' sid' [X|Hin]; [|apply Hf'; exact Hin]. inversion X; subst id' sid'.
+    destruct (Hcr id eq_refl) as (n & Hn & [He|(x & q & He)]); exists n; (split; [exact Hn|]); rewrite He; reflexivity.
+  - assert (E : (if is_backprop c then {| st_heap := refresh sl recs (st_heap s); st_env := st_env s; st_rng := st_rng s |} else s) = s).
+    { destruct (is_backprop c); [|reflexivity]. rewrite (refresh_fixed sl recs _ Hf). destruct s; reflexivity. }
+    rewrite E. pose proof (fixed_step sl recs s c Hf) as Hf'.
+    destruct (step s c) as [s' o]. cbn [fst] in *. f_equal. apply IH; assumption.
+Qed.
+
+(* the defect needs the mutation: programs in which the caller never overwrites a slice behave
+   identically in both modes *)
+Theorem retained_agrees_without_mutation (s : state) (sl : store) (p : list acmd) :
+  no_mutation p = true -> arun Retained (s, sl, []) p = arun Copied (s, sl, []) p.
+Proof. intros Hm. apply retained_agrees_aux; [exact Hm|]. intros id sid []. Qed.
+
 End AliasP.
 
 (* ================================================================== *)
@@ -169,4 +272,5 @@ End AliasEx.
 Print Assumptions decoupled.
 Print Assumptions decoupled_state.
 Print Assumptions mutation_invisible.
+Print Assumptions retained_agrees_without_mutation.
 Print Assumptions AliasEx.decoupled_refuted.
